@@ -573,6 +573,7 @@ func runHistory(c kv) string {
 			}
 			tl.calls = nil
 			crashed := false
+			printed := ""
 			var res string
 			func() {
 				defer func() {
@@ -591,6 +592,9 @@ func runHistory(c kv) string {
 				} else {
 					v, err := e.Execute(obj)
 					res = "E|" + classify(err) + "|" + encValue(v)
+					if v != nil && err == nil {
+						printed = hx(string(v.Type()) + ":" + v.Inspect() + ":" + fmt.Sprint(v.True()))
+					}
 				}
 			}()
 			if crashed {
@@ -604,7 +608,7 @@ func runHistory(c kv) string {
 				residue = 0
 			}
 			scopes = e.VerifEnvironment().VerifScopeDepth()
-			emit(fmt.Sprintf("%s|%s|%s|%d|%d", res, strings.Join(tl.calls, "+"), encVars(e), scopes, residue))
+			emit(fmt.Sprintf("%s|%s|%s|%d|%d|%s", res, strings.Join(tl.calls, "+"), encVars(e), scopes, residue, printed))
 		case "getvar":
 			emit("G|" + encValue(e.GetVariable(unhex(p[1]))))
 		case "dump":
